@@ -49,6 +49,11 @@ RULE = ("case = tap profile (1..8 taps, delay/Ts in [0,20] (thorough 60): "
         "switched, path loss, colliding taps, index/step>1 selection, second "
         "transmission, >=2 links}; for the profile part: colliding taps or "
         ">=2 taps given unsorted. distinct = SHA-1 of the case description")
+RULE += (" Added after the white-box review: "
+         "default fading generator for the single-user channels, "
+         "per-transmitter list signals (multi-user, frequency domain), "
+         "carriers counted from the end, path loss as int / float32 ")
+
 LEVEL_TEXT = ("Generated-input search (Hypothesis, seeded, sharded) over tap "
               "profiles, fading generators, antenna set-ups, wrappers and "
               "transmission histories. Oracles: per-input-sample time-varying "
